@@ -145,6 +145,10 @@ def run(ctx):
     check_retention(ctx, esc)
 
     # ---------------------------------------------------------------- G5
+    # the subset test is only as good as the routines it is made of: transform identity includes the key length, intersection and
+    # is_subset compare whole transforms
+    from .c11 import check_routines
+    check_routines(ctx, 'G5')
     fi = ctx.func('ikesa.IkeSa.process_ike_sa_negotiation_response')
     N = ctx.sval(fi)
     ps = fi.call_params()
